@@ -12,7 +12,7 @@
 """
 import os, re, random
 from . import lib
-from .c14_util import (check_theorems, Script, Gen, hx, reference_builds, json_docs, parse_snap, footprint, CAP_FIELDS, MODEL_FIELDS,
+from .c14_util import (check_theorems, deep_build, CORE_FIELDS, Script, Gen, hx, reference_builds, json_docs, parse_snap, footprint, CAP_FIELDS, MODEL_FIELDS,
                        DEFECT_FIELDS, DEAD_FIELDS)
 
 RESET_VARIANTS = ['rs:0:0', 'rs:1:0', 'rs:0:1', 'rs:1:1']
@@ -108,7 +108,7 @@ def run(ctx):
             if f[0] in ('cl', 'vl', 'ml'): eff[f[0]] = t
             elif f[0] == 'rs' and f[1] == '1': eff = {}
             elif f[0] == 'clr': eff = {}
-        b = Script(list(eff.values()))
+        b = Script(list(eff.values())); b.emit('snap')
         b.extend(ref_script); b.emit('fin')
         ca = Case(klass, a.ops, model, cfg, dict(meta or {}, reset=reset_tok))
         cb = Case(klass + ':fresh', b.ops, model, cfg)
@@ -161,13 +161,22 @@ def run(ctx):
         for n in list(range(0, len(raw), step)) + [len(raw)]:
             ref = (refs_ho + refs)[(di + n) % (len(refs_ho) + len(refs))][1]
             flags = 0
-            add_pair('json_truncated:doc%d' % di, ['jp:%s:%d' % (hx(raw[:n]), flags)], RESET_VARIANTS[(n + di) % 4], ref, [], False,
+            add_pair('json_truncated:doc%d' % di, ['%s:%s:%d' % ('jr' if (n + di) % 2 else 'jp', hx(raw[:n]), flags)], RESET_VARIANTS[(n + di) % 4], ref, [], False,
                      meta={'doc': di, 'cut': n})
     # malformed JSON (type errors, duplicate unions, unknown union type)
     bad_docs = ['{"u_type":"A","u_type":"B"}', '{"u_type":"X","u":{}}', '{"uv_type":["A"],"uv":[{"a":1},{"a":2}]}',
                 '{"u":{"a":1}}', '{"uv_type":["A","B"],"uv":[{"a":"x"}]}', '{"kids":[{"u_type":"A","u":{"a":1},"u":{"a":2}}]}']
     for bi, doc in enumerate(bad_docs):
         add_pair('json_malformed', ['jp:%s:0' % hx(doc.encode())], RESET_VARIANTS[bi % 4], refs_ho[0][1], [], False)
+        add_pair('json_malformed', ['jr:%s:0' % hx(doc.encode())], RESET_VARIANTS[(bi + 1) % 4], refs[bi % len(refs)][1], [], False)
+    # reference builds nested deeper than any limit a parser may have set temporarily (JSON nesting limit 100, verifier 100):
+    # after failed / successful / truncated parses through both entry points, every reset variant
+    deepref = Script(['GUARD']); deepref.extend(deep_build(150)); deepref.emit('REC')
+    dpre = [['jr:%s:0' % hx(bad_docs[0].encode())], ['jr:%s:0' % hx(docs[1].encode()[:40])], ['jp:%s:0' % hx(bad_docs[3].encode())],
+            ['jr:%s:0' % hx(docs[5].encode())], ['jr:%s:0' % hx(docs[7].encode()[:-9])], ['sb:0:0:0', 'st:1', 'st:1']]
+    for pi, pre in enumerate(dpre):
+        for rv in RESET_VARIANTS:
+            add_pair('deep_after_json' if pre[0][:2] in ('jr', 'jp') else 'deep_after_abandon', pre, rv, deepref, [], False)
 
     # ---------------------------------------------------------------- F5: settings (max_level, cache limit, clustering, refmap, block align)
     deep = Script()
@@ -347,6 +356,18 @@ def run(ctx):
         if len(ta) < 2 or not tb: continue
         fa, fb = ta[-2], tb[-1]
         nbytes += 1
+        # reset_equiv observed directly: state right after reset vs. state of the freshly initialised (and configured) builder
+        sa = [parse_snap(t) for t in ta if t.startswith('{')]
+        sb_ = [parse_snap(t) for t in tb if t.startswith('{')]
+        if len(sa) >= 2 and sb_ and not (ca.cfg.endswith(':2')):
+            ar, fr0 = sa[-2], sb_[0]
+            bad = [f for f in CORE_FIELDS if ar.get(f) != fr0.get(f)]
+            if bad:
+                f = bad[0]
+                key = DEFECT_FIELDS.get(f, 'reset-state-differs:' + f)
+                ctx.violation(key, 'after %s (%s) the builder field %s is %s; a freshly initialised builder with the same settings has %s' % (
+                                  ca.klass, ca.meta.get('reset'), f, ar.get(f), fr0.get(f)),
+                              {'harness_line': ca.impl_line(), 'fresh_line': cb.impl_line(), 'fields': {x: (ar.get(x), fr0.get(x)) for x in bad}})
         if fb in ('FINFAIL', 'COPYFAIL') or (fb == '-' and not cb.klass.startswith('json')):
             ctx.violation('reference-build-failed:' + cb.klass, 'reference build on a fresh builder produced no buffer', {'harness_line': cb.impl_line()})
             continue
